@@ -129,6 +129,7 @@ class _Inliner:
         self.depth = depth
         self.counter = 0
         self.inlined = []
+        self.objs = {}          # synthetic receiver name -> ClassInfo of a helper object whose fields became locals
 
     def callee(self, call, scope):
         if not isinstance(call, ast.Call):
@@ -138,6 +139,17 @@ class _Inliner:
         g = None
         if isinstance(call.func, ast.Name):
             g = self.mod.functions.get(call.func.id)
+            if g is None and call.func.id in self.mod.classes and self._plain_class(self.mod.classes[call.func.id]):
+                return None         # a constructor: handled where the object is used (object_call)
+        elif isinstance(call.func, ast.Attribute) and isinstance(call.func.value, ast.Name) and call.func.value.id in self.objs:
+            ci = self.objs[call.func.value.id]
+            g = ci.methods.get(call.func.attr)
+            if g is None or g in self.keep or g.is_generator or g.decorators or not _returns_ok(g) or g in scope:
+                return None
+            ps = g.params[1:]
+            if len(call.args) > len(ps) or any(k.arg not in ps for k in call.keywords):
+                return None
+            return g
         elif isinstance(call.func, ast.Attribute) and isinstance(call.func.value, ast.Name) and call.func.value.id == 'self' and self.f.cls is not None:
             g = self.f.cls.methods.get(call.func.attr)      # a helper method of the same class (not an inherited or overridden one)
             if g is not None and any(call.func.attr in c.methods for c in self.repo.subclasses(self.f.cls, strict=True)):
@@ -148,6 +160,74 @@ class _Inliner:
         if len(call.args) > len(ps) or any(k.arg not in ps for k in call.keywords):
             return None
         return g
+
+    def _plain_class(self, ci):
+        """a helper class of the module whose objects can be dissolved: no bases from outside, plain methods, a constructor
+        that only runs straight-line code"""
+        if ci.base_exprs and any(b not in self.mod.classes for b in ci.base_exprs):
+            return False
+        init = ci.methods.get('__init__')
+        if init is None or init.is_generator or init.decorators or any(isinstance(n, ast.Return) and n.value is not None for n in own_nodes(init.node)):
+            return False
+        return True
+
+    def dissolve(self, stmts):
+        """``x = C(a)`` / ``C(a).m(b)`` for a plain helper class C of the module: the constructor body is pasted with the
+        fields of the object as locals, provided the object is only ever used as ``x.m(...)`` / ``x.field``"""
+        out = []
+        for s in stmts:
+            # C(a).m(b)  ->  _tK = C(a); _tK.m(b)
+            for holder in (s,):
+                v = getattr(holder, 'value', None)
+                if isinstance(v, ast.Call) and isinstance(v.func, ast.Attribute) and isinstance(v.func.value, ast.Call) and \
+                        isinstance(v.func.value.func, ast.Name) and v.func.value.func.id in self.mod.classes and \
+                        self._plain_class(self.mod.classes[v.func.value.func.id]):
+                    self.counter += 1
+                    tmp = '_t%d' % self.counter
+                    a = ast.Assign(targets=[ast.Name(id=tmp, ctx=ast.Store())], value=v.func.value)
+                    ast.fix_missing_locations(ast.copy_location(a, s))
+                    v.func.value = ast.copy_location(ast.Name(id=tmp, ctx=ast.Load()), v.func)
+                    out.append(a)
+            out.append(s)
+        res = []
+        for i, s in enumerate(out):
+            if isinstance(s, ast.Assign) and len(s.targets) == 1 and isinstance(s.targets[0], ast.Name) and isinstance(s.value, ast.Call) and \
+                    isinstance(s.value.func, ast.Name) and s.value.func.id in self.mod.classes and not s.value.keywords and \
+                    not any(isinstance(a_, ast.Starred) for a_ in s.value.args):
+                ci = self.mod.classes[s.value.func.id]
+                name = s.targets[0].id
+                rest = out[i + 1:]
+                uses = [x for r in rest for x in ast.walk(r) if isinstance(x, ast.Name) and x.id == name]
+                ok = self._plain_class(ci) and all(isinstance(getattr(u, '_parent_inl', None), ast.Attribute) for u in self._mark_parents(rest, name))
+                stores = [x for r in rest for x in ast.walk(r) if isinstance(x, ast.Name) and x.id == name and isinstance(x.ctx, ast.Store)]
+                init = ci.methods['__init__'] if ok else None
+                if ok and not stores and len(s.value.args) <= len(init.params) - 1:
+                    self.counter += 1
+                    k = self.counter
+                    obj = '_o%d' % k
+                    self.objs[obj] = ci
+                    call = ast.Call(func=ast.Attribute(value=ast.Name(id=obj, ctx=ast.Load()), attr='__init__', ctx=ast.Load()), args=s.value.args, keywords=[])
+                    st = ast.Expr(value=call)
+                    ast.fix_missing_locations(ast.copy_location(st, s))
+                    res.append(st)
+                    # the object's name now stands for the dissolved object
+                    for r in rest:
+                        for x in ast.walk(r):
+                            if isinstance(x, ast.Name) and x.id == name:
+                                x.id = obj
+                    continue
+            res.append(s)
+        return res
+
+    def _mark_parents(self, stmts, name):
+        hits = []
+        for r in stmts:
+            for p in ast.walk(r):
+                for c in ast.iter_child_nodes(p):
+                    if isinstance(c, ast.Name) and c.id == name:
+                        c._parent_inl = p
+                        hits.append(c)
+        return hits
 
     def paste(self, g, call, depth, scope):
         """-> (statements, returned expression or None)"""
@@ -183,7 +263,20 @@ class _Inliner:
                 ast.fix_missing_locations(st)
                 pre.append(st)
 
+        objname = call.func.value.id if (isinstance(call.func, ast.Attribute) and isinstance(call.func.value, ast.Name) and
+                                         call.func.value.id in self.objs) else None
+        me = g.params[0] if g.cls is not None and g.params else None
+        obj_methods = set(self.objs[objname].methods) if objname else set()
+
         class Sub(ast.NodeTransformer):
+            def visit_Attribute(self, node):
+                if objname and isinstance(node.value, ast.Name) and node.value.id == me:
+                    if node.attr in obj_methods:
+                        return ast.copy_location(ast.Attribute(value=ast.Name(id=objname, ctx=ast.Load()), attr=node.attr, ctx=node.ctx), node)
+                    return ast.copy_location(ast.Name(id='%s_%s' % (objname, node.attr), ctx=node.ctx), node)
+                self.generic_visit(node)
+                return node
+
             def visit_Name(self, node):
                 if node.id in ren:
                     return ast.copy_location(ast.Name(id=ren[node.id], ctx=node.ctx), node)
@@ -265,6 +358,7 @@ class _Inliner:
     def expand(self, stmts, depth, scope):
         out = []
         work = []
+        stmts = self.dissolve(list(stmts)) if depth > 0 else stmts
         for s in stmts:
             pre, s2 = self.hoist(s, depth, scope)
             work.extend(pre)
